@@ -39,6 +39,13 @@ def r1_drain(ctx):
     for g, s in ys:
         if cb and cb[0][0] is g:
             ctx.check(g.dominates(cb[0][1].b, s.b), 'yield-after-callback', 'the yield happens after the callback (so that tasks it woke are polled in the same instant)', s.where())
+    # a single scheduler turn after the callback must at least be unconditional: whatever the callback woke (spawned tasks, LocalSet
+    # tasks, join handles ..) is polled once — a guard such as "only if the runtime reports alive tasks" skips tasks the queried
+    # counter does not see
+    if not any(g.loops_containing(s.b) for g, s in ys):
+        for g, s in ys:
+            conds = [a for _, a in g.guard_atoms(s.b) if a and a[0] in ('bool', 'cmp')]
+            ctx.check(not conds, 'yield-unconditional', 'the scheduler turn after the callback is taken unconditionally', s.where(), [show_atom(a) for a in conds][:4])
     # drain loop?
     looped = [(g, s) for g, s in ys if g.loops_containing(s.b)]
     quiescence_query = []
